@@ -13,7 +13,9 @@ SpanFns   == {"strspn_s", "strcspn_s"}
 IdxFns    == {"strfirstdiff_s", "strfirstsame_s", "strlastdiff_s", "strlastsame_s"}
 ClassFns  == {"strisalphanumeric_s", "strisascii_s", "strisdigit_s", "strishex_s", "strislowercase_s", "strismixedcase_s", "strisuppercase_s"}
 LenFns    == {"strnlen_s", "wcsnlen_s"}
-StrQueryFns == CmpFns \cup MemCmpFns \cup FindFns \cup ChrFns \cup SpanFns \cup IdxFns \cup ClassFns \cup LenFns \cup {"strprefix_s", "strispassword_s"}
+NatFns    == {"strnatcmp_s", "strnatcasecmp_s", "wcsnatcmp_s", "wcsnaticmp_s"}
+WNatFns   == {"wcsnatcmp_s", "wcsnaticmp_s"}
+StrQueryFns == CmpFns \cup MemCmpFns \cup FindFns \cup ChrFns \cup SpanFns \cup IdxFns \cup ClassFns \cup LenFns \cup NatFns \cup {"strprefix_s", "strispassword_s"}
 
 WithSg(o, k) == [o EXCEPT !.sg = k]
 Same0(a) == [i \in 1..Len(a) |-> Same({"C10", "C01"})]          \* operands are never modified
@@ -66,6 +68,48 @@ CmpOutcomes(e) ==
           \* inside its bound cannot be folded and is reported (ESNOSPC, from wcsfc_s) - admitted next to the bounded answer
           \cup (IF e.fn = "wcsicmp_s" /\ (ScanLen(e.pre, e.d, e.dmax) >= e.dmax \/ ScanLen(e.pre, e.s, e.slen) >= e.slen)
                 THEN QErrs(e, {ESNOSPC}) ELSE {})
+
+(* ---- natural-order comparison (Martin Pool's strnatcmp, which strnatcmp_s documents as its origin), transcribed:
+        white space is skipped, a run of digits in both strings at the same point is compared as a number - left-aligned
+        ("fractional": the first different digit decides) when either run starts with '0', right-aligned otherwise (the
+        longer run wins, else the first different digit) - other characters compare by value (upper-cased when folding).
+        A and B are the characters before the terminators; positions behind the end read as the terminator. ---- *)
+IsSp(c) == c = 32 \/ (c >= 9 /\ c <= 13)
+IsDg(c) == c >= 48 /\ c <= 57
+At0(q, i) == IF i <= Len(q) THEN q[i] ELSE 0
+RECURSIVE SkipSp(_, _)
+SkipSp(q, i) == IF IsSp(At0(q, i)) THEN SkipSp(q, i + 1) ELSE i
+RECURSIVE NatRight(_, _, _, _, _)
+NatRight(A, i, B, j, bias) ==
+  LET a == At0(A, i)  b == At0(B, j) IN
+  IF ~IsDg(a) /\ ~IsDg(b) THEN bias ELSE IF ~IsDg(a) THEN -1 ELSE IF ~IsDg(b) THEN 1
+  ELSE NatRight(A, i + 1, B, j + 1, IF bias # 0 THEN bias ELSE IF a < b THEN -1 ELSE IF a > b THEN 1 ELSE 0)
+RECURSIVE NatLeft(_, _, _, _)
+NatLeft(A, i, B, j) ==
+  LET a == At0(A, i)  b == At0(B, j) IN
+  IF ~IsDg(a) /\ ~IsDg(b) THEN 0 ELSE IF ~IsDg(a) THEN -1 ELSE IF ~IsDg(b) THEN 1
+  ELSE IF a < b THEN -1 ELSE IF a > b THEN 1 ELSE NatLeft(A, i + 1, B, j + 1)
+RECURSIVE NatCmp(_, _, _, _, _)
+NatCmp(A, i0, B, j0, fold) ==      \* fold: "none", "upper" (strnatcasecmp_s: toupper), "lower" (wcsnaticmp_s: the case folding of wcsfc_s)
+  LET i == SkipSp(A, i0)  j == SkipSp(B, j0)
+      a == At0(A, i)  b == At0(B, j)
+      r == IF IsDg(a) /\ IsDg(b) THEN (IF a = 48 \/ b = 48 THEN NatLeft(A, i, B, j) ELSE NatRight(A, i, B, j, 0)) ELSE 0
+      x == FoldA(a, fold)
+      y == FoldA(b, fold)
+  IN IF r # 0 THEN r ELSE IF a = 0 /\ b = 0 THEN 0 ELSE IF x < y THEN -1 ELSE IF x > y THEN 1 ELSE NatCmp(A, i + 1, B, j + 1, fold)
+NatOutcomes(e) ==
+  LET wide == e.fn \in WNatFns
+      V == QViol(e, TRUE, wide)
+      D == Str(e.pre, e.d, e.dmax)
+      S == Str(e.pre, e.s, IF wide THEN e.slen ELSE Len(e.pre))          \* the narrow source has no bound of its own: up to its terminator
+      fold == IF e.fn = "strnatcasecmp_s" THEN "upper" ELSE IF e.fn = "wcsnaticmp_s" THEN "lower" ELSE "none"
+      anysign == {WithSg(QOk(e), k) : k \in {-1, 0, 1}}
+  IN IF V # {} THEN QErrs(e, V)
+     ELSE IF Len(D) >= e.dmax THEN anysign       \* no terminator inside dmax: the answer for the dmax elements is not defined by the original; any sign, no read behind them
+                                   \cup (IF wide THEN QErrs(e, {ESNOSPC, ESUNTERM}) ELSE {})
+     ELSE IF wide /\ Len(S) >= e.slen THEN anysign \cup QErrs(e, {ESUNTERM, ESNOSPC})       \* documented: src unterminated
+     ELSE {WithSg(QOk(e), NatCmp(D, 1, S, 1, fold))}
+          \cup (IF e.sbos # UNK /\ e.sbos > 0 /\ ScanLen(e.pre, e.s, e.sbos) >= e.sbos THEN QErrs(e, {ESUNTERM}) ELSE {})
 
 MemCmpOutcomes(e) ==
   LET V == QViol(e, TRUE, TRUE) IN
@@ -180,6 +224,7 @@ StrQueryOutcomes(e) ==
     [] e.fn \in IdxFns -> IdxOutcomes(e)
     [] e.fn \in ClassFns -> ClassOutcomes(e)
     [] e.fn \in LenFns -> LenOutcomes(e)
+    [] e.fn \in NatFns -> NatOutcomes(e)
     [] e.fn = "strprefix_s" -> PrefixOutcomes(e)
     [] e.fn = "strispassword_s" -> PasswordOutcomes(e)
 (* Known finding: strcoll_s hands both strings to libc strcoll unbounded: dmax is ignored. *)
